@@ -788,6 +788,17 @@ impl<'r> Gen<'r> {
                 self.number();
             }
         }
+        if self.r.chance(1, 5) {
+            // **kwargs, possibly as the only parameter
+            if n > 0 {
+                self.comma();
+            } else {
+                self.emit(" ");
+            }
+            self.emit("**");
+            self.emit_ascii_name();
+            self.emit("_kw");
+        }
         self.in_lambda_params = saved;
         self.emit(":");
         self.gap(true);
